@@ -136,15 +136,7 @@ class World:
         self.cfg = cfg
         db = self.db = Database()
         a_pk, b_pk, m_pk = cfg['a_pk'], cfg['b_pk'], cfg['m_pk']
-        a_ns = {}
-        if a_pk == 'auto': a_ns['id'] = PrimaryKey(int)
-        else:
-            names = ['x', 'y', 'z'][:len(a_pk)]
-            for nm, t in zip(names, a_pk): a_ns[nm] = Required(str if t == 's' else int)
-        a_ns['v'] = Optional(int); a_ns['s'] = Optional(str); a_ns['dt'] = Optional(date); a_ns['bio'] = Optional(LongStr)
-        if b_pk == 'ref': a_ns['b'] = Optional('B')
-        else: a_ns['bs'] = Set('B')
-        a_ns['ms'] = Set('M')
+        names = [] if a_pk == 'auto' else ['x', 'y', 'z'][:len(a_pk)]
         if a_pk != 'auto':
             # PrimaryKey(x, y) must be called in the class body: build the class with exec
             src = 'class A(db.Entity):\n'
@@ -225,12 +217,12 @@ class World:
         kw = dict(zip(self.a_names() or ['id'], raw))
         sc = dict(v=rng.choice([None, 0, 1, -5]), s=rng.choice(['', 'a,b', '*', 'txt']), dt=rng.choice([None, date(2020, 2, 29)]), bio=rng.choice(['', 'long text']))
         self.A(**kw, **sc)
-        self.S['A'][raw] = sc
+        self.S['A'][raw] = dict(sc, **kw)
         return raw
     def new_b(self, rng):
         k = self.cfg['b_pk']; As = sorted(self.S['A'])
         a = rng.choice(As) if As and (k != 'auto' or self.cfg['b_a_required'] or rng.random() < 0.7) else None
-        if k != 'auto' and a is None: return None
+        if a is None and (k != 'auto' or self.cfg['b_a_required']): return None
         n = rng.choice(PARTS) or 'n'
         id_ = None
         if k == 'auto': id_ = self.next_id; self.next_id += 1
@@ -352,17 +344,18 @@ class World:
                 elif v[0] == 'one': d[n] = None if v[2] is None else self.plain(v[2])
                 else: d[n] = sorted(self.bag_key(v[1], r) for r in v[2])
             return d
-        related = []
+        related = {}      # (entity, raw) -> [(given entity, given raw, attribute, through a collection?)]
         for ename, raw in given:
             res.setdefault(ename, {})[self.bag_key(ename, raw)] = cell(ename, raw, True)
             for n in self.attr_names(ename, with_collections=True):
                 v = self.value(ename, raw, n)
-                if v[0] == 'one' and v[2] is not None: related.append((v[1], tuple(v[2])))
-                elif v[0] == 'many': related += [(v[1], tuple(r)) for r in v[2]]
+                if v[0] == 'one' and v[2] is not None: related.setdefault((v[1], tuple(v[2])), []).append((ename, raw, n, False))
+                elif v[0] == 'many':
+                    for r in v[2]: related.setdefault((v[1], tuple(r)), []).append((ename, raw, n, True))
         for ename, raw in related:
             if (ename, raw) not in given:
                 res.setdefault(ename, {})[self.bag_key(ename, raw)] = cell(ename, raw, False)
-        return res, set(related)
+        return res, related
 
 def norm_real(v):
     """real to_dict value -> comparable (entities -> ('obj', name, raw))"""
@@ -403,9 +396,10 @@ def check_entity_to_dict(ctx, w, rng, log):
             ctx.case(['Entity.to_dict', w.cfg, ename, list(raw), sorted(opts.items(), key=repr), len(log)], kind='oracle:Entity.to_dict')
             ctx.count('Entity.to_dict:pkcols=%d' % w.pk_cols(ename))
             if got != exp:
+                diff = sorted(exp) if not isinstance(got, dict) else sorted((set(exp) ^ set(got)) | {k for k in exp if k in got and exp[k] != got[k]})
                 ctx.violation('Entity.to_dict() does not report the current attribute values / relationship keys',
                               dict(scenario(w, log), entity=ename, pk=list(raw), options={k: v for k, v in opts.items()}),
-                              observed=got, expected=exp, key='Entity.to_dict:%s:%s' % (ename, sorted(k for k in (exp if not isinstance(got, dict) else set(exp) ^ set(got) | {k for k in exp if k in got and exp[k] != got[k]}))))
+                              observed=got, expected=exp, key='Entity.to_dict:%s:%s:%s' % (ename, diff, got if not isinstance(got, dict) else ''))
 
 def classify_bag_diff(w, given, related, got, exp):
     """per (entity, key, attr) cell differences, each mapped to a canonical id"""
@@ -413,12 +407,19 @@ def classify_bag_diff(w, given, related, got, exp):
     for ename in sorted(set(got) | set(exp)):
         g, e = got.get(ename, {}), exp.get(ename, {})
         for k in sorted(set(g) | set(e), key=repr):
-            if k not in g: out.append(('bag:object-missing:%s' % ename, ename, k, None)); continue
+            if k not in g:
+                # a related object is missing: canonical id of the known defect when every path to it starts at a given
+                # object that was itself reached as "related" of another given object (and so was only processed with process_related=False)
+                srcs = [v for (en, r), v in related.items() if en == ename and str(w.bag_key(en, r)) == str(k)]
+                if srcs and all((ge, gr) in related for (ge, gr, _, coll) in srcs[0]):
+                    out.append((K_LOSES, ename, k, None))
+                else: out.append(('bag:object-missing:%s' % ename, ename, k, None))
+                continue
             if k not in e: out.append(('bag:unexpected-object:%s' % ename, ename, k, None)); continue
             for n in sorted(set(g[k]) | set(e[k])):
                 if n in g[k] and n in e[k] and g[k][n] == e[k][n]: continue
                 attr = getattr(w.E[ename], n)
-                raws = [r for (en, r) in given if en == ename and w.bag_key(en, r) == k]
+                raws = [r for (en, r) in given if en == ename and str(w.bag_key(en, r)) == str(k)]
                 if n not in g[k] and attr.is_collection and raws and (ename, raws[0]) in related:
                     out.append((K_LOSES, ename, k, n))
                 elif n in g[k] and attr.is_collection and len(attr.reverse.entity._pk_attrs_) == 1 and len(attr.reverse.entity._pk_columns_) > 1:
@@ -503,7 +504,8 @@ def check_pickle(ctx, w, rng, log):
                 qr = q[:] if rng.random() < 0.5 else q
                 dumps('QueryResult' if qr is not q else 'Query', qr, ('entity-set', [(en, x) for x in raws]))
             else:
-                q = select(x for x in w.E[en])
+                E_ = w.E[en]
+                q = select(x for x in E_)
                 dumps('Query', q, ('entity-set', [(en, x) for x in raws]))
         for en, attr, kind in [('A', 'ms', 'm2m'), ('M', 'as_', 'm2m'), ('A', 'bs', 'o2m'), ('D', 'bs', 'o2m')]:
             if not hasattr(w.E[en], attr) or not w.S[en]: continue
